@@ -158,13 +158,15 @@ that delay -/
 theorem C06_failure_after_rerun_counts_on (cfg : Cfg) (pol : Engine.Policy) (step : Nat) (tickEv : Ev) (dc : Bool)
     (acc : ResAcc) (r : RetryRec) (hr : acc.exec.retryRec = r) (exc : Nat) (failedAt : Int)
     (c : StepCfg) (hc : cfg.find step = some c) (hretry : c.hasRetry = true) (d : Nat)
-    (hp : pol step (failedAt - r.firstAt) (r.attempts + 1) exc = .retry d) :
+    (hp : pol step (failedAt - r.firstAt) (r.attempts + 1) exc = .retry d)
+    -- (the failure of an execution that an earlier result of the same list already scheduled to run again is skipped)
+    (hsip : acc.stillInProgress = false) :
     (applyRes cfg pol step tickEv dc acc (.failed exc failedAt)).cmds = acc.cmds ++
       [.queueEvent { ev := tickEv, attempts := some (r.attempts + 1), firstAt := some r.firstAt,
                      lastExc := some exc, lastFailedAt := some failedAt, rc := r.rc } (some step) (some d)] := by
   subst hr
   simp only [InProg.retryRec] at hp
-  simp [applyRes, retryDecision, hc, hretry, hp, InProg.retryRec]
+  simp [applyRes, retryDecision, hc, hretry, hp, InProg.retryRec, hsip]
 
 /-! Non-vacuity: step 3 (two workers, retry policy); worker 0 runs event uid 1 on its second retry
 (`attempts = 2`) with an empty snapshot of buffer 0 while the live buffer already holds event uid 2. -/
@@ -186,4 +188,4 @@ example : (processStepResult C06.cfg (fun _ _ k _ => .retry k) 3 0 C06.exec.ev C
 example : (applyRes C06.cfg (fun _ _ k _ => .retry k) 3 C06.exec.ev false { st := C06.st, exec := C06.exec } (.failed 7 13)).cmds =
     [.queueEvent { ev := C06.exec.ev, attempts := some 3, firstAt := some 10, lastExc := some 7, lastFailedAt := some 13 } (some 3) (some 3)] :=
   C06_failure_after_rerun_counts_on C06.cfg _ 3 C06.exec.ev false { st := C06.st, exec := C06.exec } C06.exec.retryRec rfl 7 13
-    { name := 3, accepted := [5, 6], numWorkers := 2, hasRetry := true } (by decide) rfl 3 rfl
+    { name := 3, accepted := [5, 6], numWorkers := 2, hasRetry := true } (by decide) rfl 3 rfl rfl
